@@ -35,6 +35,13 @@ def load():
                 meta = json.load(open(m)) if os.path.exists(m) else {}
                 cat.append({"id": "seeded-" + d, "patch": p, "expect": meta.get("expect", [meta.get("property")] if meta.get("property") else []),
                             "kind": "mutant", "note": meta.get("summary", "")})
+    nd = os.path.join(HERE, "neutral")
+    if os.path.isdir(nd):
+        for d in sorted(os.listdir(nd)):
+            p = os.path.join(nd, d, "patch.diff")
+            if os.path.exists(p):
+                cat.append({"id": "neutralx-" + d, "patch": p, "expect": [], "kind": "neutral",
+                            "note": "behaviour-preserving refactoring written by a sub-agent"})
     return cat
 
 
